@@ -73,6 +73,41 @@ def gen_case(r, nops, leak_probe=False):
     return {"max_inflight": k, "timeout_ms": 5000, "ops": ops}
 
 
+def stalled_writer_case(r):
+    """directed, monitors only: the peer stays connected but stops reading; requests time out round after round until the
+    outbound queue (4096 slots) is full and further requests time out while waiting for room in it; then the peer reads
+    on and answers: a full window of new requests must complete (failed requests cost no capacity)."""
+    k = r.choice([50, 100])
+    ops = [{"t": "issue", "id": 1}, {"t": "reply", "id": 1}, {"t": "peer_stall", "on": True}]
+    nid = 2
+    rounds = 4300 // k + 3
+    for _ in range(rounds):
+        ops.append({"t": "issue_many", "from": nid, "count": k})
+        nid += k
+        ops.append({"t": "advance", "ms": 400})
+    ops.append({"t": "peer_stall", "on": False})
+    ops.append({"t": "advance", "ms": 400})
+    ops.append({"t": "issue_many", "from": nid, "count": k, "expect_all": True})
+    ops.append({"t": "reply_many", "from": nid, "count": k})
+    ops.append({"t": "advance", "ms": 400})
+    return {"max_inflight": k, "timeout_ms": 300, "duplex": 256, "ops": ops, "nomodel": True, "final_window": [nid, k]}
+
+
+def final_window_monitor(case, ob):
+    if not case.get("final_window"):
+        return []
+    frm, k = case["final_window"]
+    done = {}
+    for o in ob["ops"]:
+        for ids, res in o["done"].items():
+            done[int(ids)] = res
+    ok = [i for i in range(frm, frm + k) if "reply_id" in done.get(i, {}) and done[i]["reply_id"] == i]
+    if len(ok) != k:
+        bad = [i for i in range(frm, frm + k) if i not in ok][:5]
+        return [(f"after the peer recovered only {len(ok)} of a window of {k} requests were completed by their own replies (e.g. {bad}: {[done.get(i) for i in bad][:2]}): requests that failed while the writer was blocked still hold capacity", len(case["ops"]) - 1)]
+    return []
+
+
 def to_terms(case, ob):
     """events per op (timeouts derived from the implementation's own completions) + observation terms"""
     outstanding = []     # (id, issue_time)
@@ -205,6 +240,12 @@ def run(tier, replay=None):
             distinct.add(json.dumps(c["ops"]))
             for op in c["ops"]:
                 stats["ops"][op["t"]] = stats["ops"].get(op["t"], 0) + 1
+            if c.get("nomodel"):
+                stats["stalled_writer_probes"] = stats.get("stalled_writer_probes", 0) + 1
+                for what, t in final_window_monitor(c, ob):
+                    violations.append((what, c))
+                terms.append("true")
+                continue
             evs, obst, mon = to_terms(c, ob)
             for o in ob["ops"]:
                 for res in o["done"].values():
@@ -236,6 +277,7 @@ def run(tier, replay=None):
             search(json.load(f).get("cases", []), "r")
     else:
         cases = [dict(gen_case(r, 0, leak_probe=True), probe=True) for _ in range(6)]
+        cases += [stalled_writer_case(r) for _ in range(3 if thorough else 1)]
         cases += [gen_case(r, r.randint(6, 40)) for _ in range(600 if thorough else 80)]
         search(cases, "q")
         if (broken or disagreements) and not violations:
@@ -248,7 +290,7 @@ def run(tier, replay=None):
         "checker_cmd": "python3 translator/gen.py && make -C coq -j16 Props/C16.vo Conf/ClientConf.vo && coqc work/assm_C16.v",
         "trusted_base": TRUSTED_BASE, "theorems": THEOREMS, "print_assumptions": closed,
         "evaluations": stats["histories"], "distinct_nontrivial": len(distinct),
-        "rule": "histories of issue / peer reply (in order, out of order, duplicated, late, unsolicited) / ping / unsolicited push / link break / time advance against the real generic Client (max_idle_connections=1) over an in-memory link with a scripted peer under virtual time; per op the written request ids, pongs, completions and timeouts are compared with the model in coqc; leak probes: k timeouts followed by a full window of healthy requests",
+        "rule": "histories of issue / peer reply (in order, out of order, duplicated, late, unsolicited) / ping / unsolicited push / link break / time advance against the real generic Client (max_idle_connections=1) over an in-memory link with a scripted peer under virtual time; per op the written request ids, pongs, completions and timeouts are compared with the model in coqc; leak probes: k timeouts followed by a full window of healthy requests; stalled-writer probe: the peer stops reading until the outbound queue is full and requests time out waiting for room in it, then recovers and a full window must complete",
         "traces_validated_against_impl": stats["histories"], "disagreements": len(disagreements), "distribution": stats,
         "samples": [], "known_findings_reproduced": sorted(known_seen), "exhaustive": False,
     }
